@@ -270,6 +270,18 @@ def case_civil_year(mon, y):
                   lambda: {"civil": [y, m, d], "moslem": got,
                            "tabular": list(want)},
                   lambda: key_g2m((y, m, d), got, want))
+        # the day as get_date() hands it back: a float, with or without a
+        # time of day - still that civil day
+        if d % 3 == 0:
+            fd = d + (0.0, 0.25, 0.5, 0.75, 0.999)[(d // 3 + m) % 5]
+            mon.evals += 1
+            try:
+                gotf = Epoch.gregorian2moslem(y, m, fd)
+            except Exception as ex:
+                gotf = repr(ex)
+            mon.check("g2m.float-day", gotf == got,
+                      lambda: {"civil": [y, m, fd], "moslem": gotf,
+                               "with_integer_day": got})
 
 
 def case_moslem_edges(mon, h):
